@@ -977,8 +977,11 @@ def battery(ctx, chk, n_recipes, n_sp, focus=None):
 
 
 ANCHORS_PER_FAMILY = 20
-ANCHORS = {"constant": 80, "tensordot": 72, "independent": 64, "getitem": 48, "contraction": 40, "function": 24, "binalign": 48}
+ANCHORS = {"constant": 80, "tensordot": 72, "independent": 64, "getitem": 48, "contraction": 40, "function": 24, "binalign": 48,
+           # the whole enumerated index grid (see c02_extra._getslice_grid) + 40 random programs beyond it
+           "getslice": len(X.GETSLICE_GRID) + 40}
 ANCHOR_MODES = {
+    "getslice": ["eager", "lazy>eager"],
     "subschain": ["normalize", "reflect>normalize", "eager"],
     "tensordot": ["eager", "normalize>eager"],
     "contraction": ["eager", "normalize>eager", "reflect>optimizer", "lazy", "reflect>sequential", "reflect>normalize",
